@@ -46,6 +46,7 @@ def evaluate(root, sandbox, project=None, cap=600, bids=False):
             pkg = st.getPackage().getName()
             rec = {"key": key, "label": st.getLabel(), "pkg": pkg, "valid": bool(st.isValid()),
                    "vid": st.getVariantId().hex(), "desc": S.export_step(st)}
+            rec["dep_keys"] = ["/".join(a.getPackage().getStack()) + ":" + a.getLabel() for a in st.getAllDepSteps()]
             rec["env_keys"] = sorted(st.getEnv().keys())
             rec["env"] = dict(st.getEnv())
             rec["tooldep"] = sorted(st.toolDep)
@@ -68,7 +69,9 @@ def evaluate(root, sandbox, project=None, cap=600, bids=False):
                 for plat, fp in BID_CONFIGS:
                     b = S.build_id(st, fp, plat)
                     rec["bid"].append({"platform": plat.hex(), "fingerprint": None if fp is None else fp.hex(),
-                                       "id": b.hex(), "req": S.lean_bid_request(st, rec["desc"], fp, plat)})
+                                       "id": b.hex(), "req": S.lean_bid_request(st, rec["desc"], fp, plat),
+                                       # the same Build-Id with another installed variant of every weakly used tool
+                                       "id_other_weak_tools": S.build_id(st, fp, plat, weak_tag=b"other").hex()})
             out.append(rec)
         return {"steps": out, "truncated": len(out) >= cap}
     finally:
@@ -88,12 +91,20 @@ def write_files(root, files, order=None):
 
 
 if __name__ == "__main__":
+    # python evalproj.py <jobs.json>: [{"root":…, "sandbox":b, "out":…, "cap":n, "bids":b, "project": json|null}, …]
     here = os.path.dirname(os.path.dirname(os.path.abspath(__file__)))
     sys.path.insert(0, here)
     repo = os.environ.get("BOB_VERIF_REPO", "/repo")
     sys.path.insert(0, os.path.join(repo, "pym"))
-    root, sb, outp = sys.argv[1], sys.argv[2] == "1", sys.argv[3]
-    cap = int(sys.argv[4]) if len(sys.argv) > 4 else 600
-    res = evaluate(root, sb, None, cap, bids=len(sys.argv) > 5 and sys.argv[5] == "bids")
-    with open(outp, "w") as f:
-        json.dump(res, f)
+    from gen import projects as _G
+    with open(sys.argv[1]) as f:
+        jobs = json.load(f)
+    for job in jobs:
+        proj = _G.Project.from_json(job["project"]) if job.get("project") else None
+        try:
+            res = evaluate(job["root"], job["sandbox"], proj, job.get("cap", 600), bids=job.get("bids", False))
+        except Exception as e:  # reported to the caller, which decides what it means
+            import traceback
+            res = {"crash": "".join(traceback.format_exception_only(type(e), e))[-500:]}
+        with open(job["out"], "w") as f:
+            json.dump(res, f)
